@@ -65,6 +65,11 @@ CHECKS = {
    technique="TLA+ model of enumeration-order choice points and of fc's consumers of an enumeration (FoDictOrder.tla); TLC decides which consumers are order-independent and enumerates the schedules with a bounded number of perturbed calls from the recorded call sequence; each schedule is replayed on the real fc through the guarded dict hook; results validated by TLC (FoDictOrderTrace.tla)",
    text="Every dict.Keys/Values/KVs call of a run is a scheduling choice. TLC checks, for all dictionaries up to 3 entries, that sort-then-first-match, iterate-register and set-union consumers are permutation independent and that first-match is independent exactly when at most one entry matches; from the call sequence recorded by the hook it enumerates all schedules with one perturbed call (reverse, rotations, adjacent transpositions). Each schedule, plus full reverse/rotate/random schedules and repeated runs of the un-hooked binary under Go's own map randomisation, must reproduce the canonical run's exit status and byte-identical files, for corpus programs built to stress the order-sensitive consumers, samples and fc's own sources.",
    note="Trusted: the hook's canonical order (sort on printed key); systematic exploration is bounded (one perturbed call per schedule; sampled by seed for long runs in quick); nondeterminism that bypasses pkg/dict is only reachable by the repeated un-hooked runs."),
+ "C07": dict(
+   category="model_checking", design_ref="4.7", engine="FoParseState",
+   technique="TLA+ machine of fc's long-lived parse state over histories of top-level definitions (FoParseState.tla), model-checked with TLC with and without named deviations; histories of concrete packages are behaviours of that machine (TLC simulation) plus directed ones, replayed through one invocation of the real fc; per-definition Go declarations compared with the minimal history by TLC (FoParseStateTrace.tla)",
+   text="The parse state (root scope bindings, inference and forward-declaration allocators with their limit, temporaries, scope depth, file cursor) is a machine whose invariants - fresh per-definition context, names denote top-level definitions rather than leaked locals, no spurious allocator exhaustion - are model-checked over all histories of an abstract package and shown non-vacuous by four deviations (thorough). For concrete packages (records, unions, and-groups with forward references, generics, package_info, top-level variables, local names colliding with unrelated top-level names, fillers exceeding the allocator limit over a run) TLC-simulated and directed histories (minimal, reordered, dropped, inserted, cut into 2-3 files, package_info in a leading .foi) are transpiled by the real binary; each definition's Go declarations, temporaries renumbered, must equal those of its minimal history, and exactly gen_X.go per X.fo must be written.",
+   note="Trusted: go/printer text of declarations found by name; the hand-written package corpus and its dependency relation; histories are sampled (seeded), not exhaustive; the white-box trace of the parse state planned in the design (root-step hook) is not built: the binding is black-box."),
 }
 
 def cmd(pid, tier):
